@@ -168,7 +168,7 @@ Proof. intros i Hi. unfold cA. now apply rd_ok. Qed.
 Lemma cA_lt : forall i, i < length (col_P p) -> cA i < N.
 Proof. intros i Hi. apply WF_col. unfold cA. now apply nth_In. Qed.
 
-Lemma in_range : forall lo hi i, In i (range lo hi) <-> lo <= i < hi.
+Lemma range_In : forall lo hi i, In i (range lo hi) <-> lo <= i < hi.
 Proof. intros lo hi i. unfold range. rewrite in_seq. lia. Qed.
 
 Lemma row_cols_eq : forall n, n < N -> row_cols p n = map cA (range (R n) (R (n + 1))).
@@ -180,7 +180,7 @@ Qed.
 
 Lemma row_idx_lt : forall n i, n < N -> In i (range (R n) (R (n + 1))) -> i < length (col_P p).
 Proof.
-  intros n i Hn Hi. apply in_range in Hi. pose proof (R_le_len (n + 1) ltac:(lia)). lia.
+  intros n i Hn Hi. apply range_In in Hi. pose proof (R_le_len (n + 1) ltac:(lia)). lia.
 Qed.
 
 (* ---------- present ---------- *)
@@ -441,6 +441,7 @@ Proof.
 Qed.
 
 (* ---------- second pass, one entry ---------- *)
+Section Loop.
 Variable srow : list nat.
 Hypothesis srow_len : length srow = N + 1.
 Notation Sx x := (nth x srow 0).
@@ -911,7 +912,7 @@ Proof.
         -- rewrite N3 in C1. inversion C1; subst y. now apply NP2.
       * destruct (New x j1 Hx H1 Nlt1) as (E1 & _). destruct (New x j2 Hx H2 Nlt2) as (E2 & _). lia.
   - (* an inactive entry changes nothing *)
-    exists st. split; [exact FE|].
+    exists st. split; [apply FE; discriminate|].
     assert (Z : forall x, cF n (cA i) x = 0) by (intros x; unfold cF; now rewrite A).
     constructor; try assumption.
     + intros x Hx. specialize (Bud' x Hx). rewrite Z in Bud'. lia.
@@ -919,4 +920,146 @@ Proof.
       split; [exact S1|]. split; [exact S2|]. now apply (Src_mono pre).
 Qed.
 
+Lemma fill_loop : forall post pre st, ents = pre ++ post -> Inv pre post st ->
+  exists st', forM post st (fun e st0 => fill_entry V vadd p srow (fst e) (snd e) st0) = Ok st' /\
+              Inv ents [] st'.
+Proof.
+  induction post as [|[n i] post IH]; intros pre st He HI.
+  - exists st. split; [reflexivity|]. rewrite app_nil_r in He. now rewrite He.
+  - destruct (fill_step pre n i post st He HI) as (st1 & E1 & HI1). cbn [forM fst snd]. rewrite E1. cbn [bind].
+    apply (IH (pre ++ [(n, i)])); [|exact HI1]. rewrite <- app_assoc. exact He.
+Qed.
+
+Lemma fill_pass_flat : forall k,
+  fill_pass V vadd p N srow k
+  = forM ents (mkFill V (repeat None k) (repeat None k) (repeat 0 N))
+         (fun e st0 => fill_entry V vadd p srow (fst e) (snd e) st0).
+Proof.
+  intros k. unfold fill_pass, ents. rewrite forM_flat_map. apply forM_ext. intros n st Hn. apply in_seq in Hn.
+  rewrite (rd_row n) by lia. cbn [bind]. rewrite (rd_row (n + 1)) by lia. cbn [bind].
+  rewrite forM_map. reflexivity.
+Qed.
+
+Lemma nth_repeat0 : forall x n, nth x (repeat 0 n) 0 = 0.
+Proof. intros x n. revert x. induction n as [|k IH]; intros [|x]; cbn; auto. Qed.
+
+Lemma fill_final :
+  exists st', fill_pass V vadd p N srow K = Ok st' /\
+    length (s_col V st') = K /\ length (s_val V st') = K /\
+    (forall x j, x < N -> j < nth x rc 0 ->
+       exists y v, nth_error (s_col V st') (Sx x + j) = Some (Some y) /\
+                   nth_error (s_val V st') (Sx x + j) = Some (Some v) /\ Src ents x y v) /\
+    (forall x j1 j2 y, x < N -> j1 < nth x rc 0 -> j2 < nth x rc 0 ->
+       nth_error (s_col V st') (Sx x + j1) = Some (Some y) ->
+       nth_error (s_col V st') (Sx x + j2) = Some (Some y) -> j1 = j2) /\
+    (forall s, s < K -> exists y v, nth_error (s_col V st') s = Some (Some y) /\
+                                     nth_error (s_val V st') s = Some (Some v)).
+Proof.
+  rewrite fill_pass_flat.
+  destruct (fill_loop ents [] (mkFill V (repeat None K) (repeat None K) (repeat 0 N)) eq_refl)
+    as (st' & E & HI).
+  { constructor; cbn [s_col s_val s_off]; try apply repeat_length.
+    - intros x Hx. rewrite nth_repeat0, <- SF_ents, <- rc_SF by assumption. reflexivity.
+    - intros x j _ Hj. rewrite nth_repeat0 in Hj. lia.
+    - intros x j1 j2 y _ Hj. rewrite nth_repeat0 in Hj. lia. }
+  exists st'. split; [exact E|]. destruct HI as [Lc Lv Lo Bud Slot Dist].
+  assert (Off : forall x, x < N -> nth x (s_off V st') 0 = nth x rc 0).
+  { intros x Hx. specialize (Bud x Hx). cbn in Bud. lia. }
+  split; [exact Lc|]. split; [exact Lv|]. split; [|split].
+  - intros x j Hx Hj. apply Slot; [assumption|]. now rewrite Off.
+  - intros x j1 j2 y Hx H1 H2. apply Dist; try assumption; now rewrite Off.
+  - intros s Hs. destruct (find_region s Hs) as (x & Hx & Hr). rewrite (srow_step x Hx) in Hr.
+    destruct (Slot x (s - Sx x) Hx ltac:(rewrite Off by assumption; lia)) as (y & v & S1 & S2 & _).
+    replace (Sx x + (s - Sx x)) with s in * by lia. now exists y, v.
+Qed.
+
+End Loop.
+
+(* ---------- the hand-over loops ---------- *)
+Lemma finish_cols_ok : forall l i,
+  (forall s, s < length l -> exists c, nth_error l s = Some (Some c)) ->
+  exists r, finish_cols i l = Ok r /\ length r = length l /\
+            forall s c, nth_error l s = Some (Some c) -> nth_error r s = Some c.
+Proof.
+  induction l as [|a l IH]; intros i H.
+  - exists []. split; [reflexivity|]. split; [reflexivity|]. intros [|s] c E; discriminate.
+  - destruct (H 0 ltac:(cbn; lia)) as (c0 & E0). cbn in E0. inversion E0; subst a.
+    destruct (IH (S i)) as (r & Er & Lr & Cr).
+    { intros s Hs. apply (H (S s)). cbn [length]. lia. }
+    exists (c0 :: r). cbn [finish_cols]. rewrite Er. cbn [bind]. split; [reflexivity|].
+    split; [cbn [length]; lia|]. intros [|s] c E; cbn [nth_error] in *; [now inversion E | now apply Cr].
+Qed.
+
+Lemma finish_vals_ok : forall l i,
+  (forall s, s < length l -> exists v, nth_error l s = Some (Some v)) ->
+  exists r, finish_vals V vhalf i l = Ok r /\ length r = length l /\
+            forall s v, nth_error l s = Some (Some v) -> nth_error r s = Some (vhalf v).
+Proof.
+  induction l as [|a l IH]; intros i H.
+  - exists []. split; [reflexivity|]. split; [reflexivity|]. intros [|s] c E; discriminate.
+  - destruct (H 0 ltac:(cbn; lia)) as (c0 & E0). cbn in E0. inversion E0; subst a.
+    destruct (IH (S i)) as (r & Er & Lr & Cr).
+    { intros s Hs. apply (H (S s)). cbn [length]. lia. }
+    exists (vhalf c0 :: r). cbn [finish_vals]. rewrite Er. cbn [bind]. split; [reflexivity|].
+    split; [cbn [length]; lia|]. intros [|s] c E; cbn [nth_error] in *; [now inversion E | now apply Cr].
+Qed.
+
+(* C. on a well-formed input nothing is read or written out of range, every slot of the new
+   arrays is written, and every stored entry (x, y, v/2) comes from an active input entry *)
+Theorem symmetrize_ok :
+  exists rc s, count_pass V p N = Ok rc /\ length rc = N /\ (forall x, x < N -> nth x rc 0 = SC x) /\
+    symmetrize V vadd vhalf p N = Ok s /\ row_P s = prefix_sums 0 rc /\
+    length (col_P s) = rowp s N /\ length (val_P s) = rowp s N /\
+    (forall x j, x < N -> j < nth x rc 0 ->
+       exists y v, nth_error (col_P s) (rowp s x + j) = Some y /\
+                   nth_error (val_P s) (rowp s x + j) = Some (vhalf v) /\ Src ents x y v) /\
+    (forall x j1 j2 y, x < N -> j1 < nth x rc 0 -> j2 < nth x rc 0 ->
+       nth_error (col_P s) (rowp s x + j1) = Some y ->
+       nth_error (col_P s) (rowp s x + j2) = Some y -> j1 = j2).
+Proof.
+  destruct count_pass_ok as (rc & Erc & Lrc & Crc).
+  set (srow := prefix_sums 0 rc).
+  assert (Hlen : length srow = N + 1) by (unfold srow; rewrite prefix_sums_length; lia).
+  assert (H0 : nth 0 srow 0 = 0) by (unfold srow; rewrite prefix_sums_nth by lia; reflexivity).
+  assert (Hstep : forall x, x < N -> nth (x + 1) srow 0 = nth x srow 0 + nth x rc 0).
+  { intros x Hx. unfold srow. apply prefix_sums_step. lia. }
+  assert (HSF : forall x, x < N -> nth x rc 0 = SF x).
+  { intros x Hx. rewrite Crc. now apply SC_eq_SF. }
+  assert (HK : fold_left Nat.add rc 0 = nth N srow 0).
+  { unfold srow. rewrite prefix_sums_nth by lia. rewrite <- Lrc, firstn_all. reflexivity. }
+  destruct (fill_final srow Hlen rc Lrc HSF H0 Hstep) as (st & Est & Lc & Lv & Slot & Dist & All).
+  destruct (finish_vals_ok (s_val V st) 0) as (vals & Ev & Lvals & Cv).
+  { intros s Hs. rewrite Lv in Hs. destruct (All s Hs) as (y & v & _ & S2). now exists v. }
+  destruct (finish_cols_ok (s_col V st) 0) as (cols & Ec & Lcols & Cc).
+  { intros s Hs. rewrite Lc in Hs. destruct (All s Hs) as (y & v & S1 & _). now exists y. }
+  exists rc, (mkCsr srow cols vals).
+  split; [exact Erc|]. split; [exact Lrc|]. split; [intros x _; apply Crc|].
+  split.
+  { unfold symmetrize. rewrite Erc. cbn [bind]. fold srow. rewrite HK, Est. cbn [bind].
+    rewrite Ev. cbn [bind]. rewrite Ec. cbn [bind]. reflexivity. }
+  cbn [row_P col_P val_P]. unfold rowp. cbn [row_P].
+  split; [reflexivity|]. split; [congruence|]. split; [congruence|]. split.
+  - intros x j Hx Hj. destruct (Slot x j Hx Hj) as (y & v & S1 & S2 & S3). exists y, v.
+    split; [now apply Cc|]. split; [now apply Cv | exact S3].
+  - intros x j1 j2 y Hx H1 H2 C1 C2.
+    destruct (Slot x j1 Hx H1) as (y1 & v1 & S1 & _). destruct (Slot x j2 Hx H2) as (y2 & v2 & S2 & _).
+    pose proof (Cc _ _ S1) as D1. pose proof (Cc _ _ S2) as D2.
+    rewrite D1 in C1. rewrite D2 in C2. inversion C1; inversion C2; subst.
+    now apply (Dist x j1 j2 y).
+Qed.
+
+Corollary symmetrize_safe : exists s, symmetrize V vadd vhalf p N = Ok s.
+Proof. destruct symmetrize_ok as (rc & s & _ & _ & _ & E & _). now exists s. Qed.
+
 End Sym2.
+
+(* non-vacuity: a well-formed input *)
+Example wf_csr_example : wf_csr 3 (mkCsr [0; 1; 2; 3] [1; 2; 0] [1; 2; 3]).
+Proof.
+  unfold wf_csr, rowp, row_cols, seg. cbn [row_P col_P val_P].
+  split; [reflexivity|]. split; [reflexivity|]. split.
+  { intros n Hn. destruct n as [|[|[|n]]]; cbn; lia. }
+  split; [reflexivity|]. split; [reflexivity|]. split.
+  { intros c Hc. cbn in Hc. lia. }
+  intros n Hn. destruct n as [|[|[|n]]]; cbn; try lia; repeat constructor; intros [].
+Qed.
